@@ -475,3 +475,62 @@ def option_is_some_of3(conds, opt, x):
     if some is True and pe is True:
         return True
     return None
+
+
+def affine_in(e, x):
+    """e == x + a for an integer constant a (through casts) -> a, else None"""
+    while e[0] == "cast":
+        e = e[2]
+    if e == x:
+        return 0
+    if e[0] == "bin" and e[1] in ("Add", "Sub"):
+        l, r = e[2], e[3]
+        if r[0] == "int":
+            a = affine_in(l, x)
+            if a is not None:
+                return a + (r[1] if e[1] == "Add" else -r[1])
+        if l[0] == "int" and e[1] == "Add":
+            a = affine_in(r, x)
+            if a is not None:
+                return a + l[1]
+    return None
+
+
+def loop_counter(paths, body, hv):
+    """A local kept by hand as a loop counter.  `hv` is the havoc value that stands for it at the head of its loop
+    (('hv', fn, name, header)).  -> (value before the loop, step per iteration) when the local holds an integer
+    constant before the loop, every back edge of that loop stores `counter + step` with one constant step (a write
+    inside an inner loop would show up as that loop's own havoc value and fail the test); None otherwise."""
+    if hv[0] != "hv":
+        return None
+    hdr, cname = hv[3], hv[2]
+    init = None
+    for p in paths:
+        snap = p.pre_loop.get((0, hdr))
+        if snap is not None:
+            v = snap.get((cname, ()))
+            if v is None or v[0] != "int":
+                return None
+            if init is not None and init != v[1]:
+                return None
+            init = v[1]
+    if init is None:
+        return None
+    step = None
+    nback = 0
+    for q in paths:
+        if q.end != "loopback":
+            continue
+        val = None
+        for root, v_ in q.store.items():
+            if root[0] == "L" and root[1] == 0 and body.local_name(root[2]) == cname:
+                val = v_
+        if q.end_bb == hdr:
+            nback += 1
+            a = affine_in(val, hv) if val is not None else None
+            if a is None or a == 0 or (step is not None and step != a):
+                return None
+            step = a
+    if nback == 0 or step is None:
+        return None
+    return init, step
